@@ -141,6 +141,7 @@ type QRes struct {
 	Total     int            `json:"total,omitempty"`
 	Lookup    []string       `json:"lookup,omitempty"` // "id|route|state"
 	Skipped   bool           `json:"skipped,omitempty"`
+	StatsExtra string        `json:"stats_extra,omitempty"`
 }
 
 type QConf struct {
@@ -190,6 +191,7 @@ type qWorld struct {
 	dbPath string
 	wallet []walletEntry // every lease ever granted, in grant order
 	gen    []string      // generated message ids in order of appearance
+	attSeq int
 }
 
 type walletEntry struct {
@@ -443,11 +445,14 @@ func (w *qWorld) resolve(op QOp, snap Snap) resolvedOp {
 		r.Leases = append(r.Leases, w.resolveLease(l))
 	}
 	r.IDs = w.resolveIDs(op.IDs)
-	if op.BeforeOf != "" {
+	if op.BeforeOf != "" && op.K != "att" && op.K != "latt" {
 		if m, ok := snap[op.BeforeOf]; ok && m.Recv != qZero {
 			r.Before = qT0.Add(time.Duration(m.Recv))
 		}
 	} else if op.BeforeMs > 0 {
+		r.Before = qT0.Add(ms(op.BeforeMs))
+	}
+	if (op.K == "att" || op.K == "latt") && op.BeforeMs > 0 {
 		r.Before = qT0.Add(ms(op.BeforeMs))
 	}
 	return r
@@ -592,10 +597,27 @@ func (w *qWorld) exec(r resolvedOp) QRes {
 		for _, it := range x.Items {
 			res.Lookup = append(res.Lookup, it.ID+"|"+it.Route+"|"+string(it.State))
 		}
+	case "att":
+		// attempt ids are unique by construction in every caller (generated); the case numbers them
+		w.attSeq++
+		id := fmt.Sprintf("att-%04d", w.attSeq)
+		err := w.st.RecordAttempt(DeliveryAttempt{ID: id, EventID: op.BeforeOf, Route: op.Route, Target: op.Target, Attempt: op.N, StatusCode: op.Ms,
+			Error: op.Reason, Outcome: AttemptOutcome(op.State), DeadReason: op.Order})
+		res.Err = errClass(err)
+	case "latt":
+		x, err := w.st.ListAttempts(AttemptListRequest{Route: op.Route, Target: op.Target, EventID: op.BeforeOf, Outcome: AttemptOutcome(op.State), Limit: op.N, Before: r.Before})
+		res.Err = errClass(err)
+		for _, a := range x.Items {
+			res.Lookup = append(res.Lookup, fmt.Sprintf("%s|%s|%s|%s|%d|%d|%q|%s|%q|%s", a.ID, a.EventID, a.Route, a.Target, a.Attempt, a.StatusCode, a.Error, a.Outcome, a.DeadReason, msOf(relNs(a.CreatedAt))))
+		}
 	case "stats":
 		x, err := w.st.Stats()
 		res.Err = errClass(err)
 		res.Total = x.Total
+		res.StatsExtra = fmt.Sprintf("oldest=%s next=%s age=%s lag=%s top=", msOf(relNs(x.OldestQueuedReceivedAt)), msOf(relNs(x.EarliestQueuedNextRun)), x.OldestQueuedAge, x.ReadyLag)
+		for _, b := range x.TopQueued {
+			res.StatsExtra += fmt.Sprintf("[%s %s %d %s %s %s %s]", b.Route, b.Target, b.Queued, msOf(relNs(b.OldestQueuedReceivedAt)), msOf(relNs(b.EarliestQueuedNextRun)), b.OldestQueuedAge, b.ReadyLag)
+		}
 		res.ByState = map[string]int{}
 		for k, v := range x.ByState {
 			if v != 0 {
